@@ -26,7 +26,7 @@ ASSUME = ['refisa is a faithful transcription of hexb.pdf',
 def run(ctx):
     ctx.rule = RULE
     ctx.assumptions = ASSUME
-    lockstep.run(ctx, 'C03', 'c03', (12000, 400000), (6000, 300000))
+    lockstep.run(ctx, 'C03', 'c03', (30000, 400000), (15000, 300000))
 
 
 def replay(path):
